@@ -92,6 +92,14 @@ def run(tier, seed, replay):
                 libcases.append({"id": len(libcases), "srcb": list(src.encode()), "inputs": r.sample(weird, 3), "rep": r.randrange(5)})
             for _ in range(300 if quick else 10000):
                 libcases.append({"id": len(libcases), "srcb": [r.randrange(256) for _ in range(r.randrange(12))], "inputs": [jqgen.V(None)], "rep": 0})
+            # the end of the text met in every sub-state of the scanner (comment, escaped comment continuation, string, escape,
+            # interpolation, number parts, format, variable, operators of several bytes): seeded C08_10
+            tails = [b"#", b"# c", b"#\\", b"# c \\", b"# c \\\\", b"#\\\r", b"# \\\r\n", b"#\\\n", b"#\\\n\\", b"\"", b"\"a", b"\"\\", b"\"\\u", b"\"\\u12", b"\"\\(", b"\"\\(1", b"\"\\(\"",
+                     b"@", b"@a", b"$", b"$a", b"$__", b".", b"..", b".a", b".\"", b".[", b"?", b"?/", b"?//", b"1.", b"1e", b"1e+", b".5E-", b"0x", b"\\", b"|", b"|=", b"/", b"//", b"//=", b"<", b"!", b"!=", b"a:", b"a::", b"-", b"\x00", b"\xff", b"\xc3"]
+            for tail in tails:
+                for base in [b"1", b"", b".", b"1 "] + [r.choice(cor)["src"].encode() for _ in range(3 if quick else 40)]:
+                    for sep in (b"", b" ", b"\n"):
+                        libcases.append({"id": len(libcases), "srcb": list(base + sep + tail), "inputs": [jqgen.V(None)], "rep": 0})
             # every builtin on EVERY boundary input (arguments: the input itself, a string, a number)
             for nm in names:
                 n, ar = nm.rsplit("/", 1)
